@@ -493,6 +493,61 @@ func c09Stores(c *Ctx, a *sketchAnchors) {
 		}
 		set := settersCalled(c, ep)
 		okT := key != nil && key.Op == "conv" && key.Sym == "int32"
+		// the two exports run for the same iterations: the tests under which an entry is exported (other than the
+		// iteration's own continuation test) are the same on both sides
+		guardsOf := func(fn *ssa.Function, site ssa.Instruction, norm func(*Term) string) []string {
+			tc := newTermCtx(c.P)
+			var out []string
+			b := site.Block()
+			for id := b.Idom(); id != nil; id = id.Idom() {
+				iff, ok := id.Instrs[len(id.Instrs)-1].(*ssa.If)
+				if !ok || len(id.Succs) != 2 {
+					continue
+				}
+				side := -1
+				for i, sc := range id.Succs {
+					if len(sc.Preds) == 1 && (sc == b || sc.Dominates(b)) {
+						side = i
+					}
+				}
+				if side < 0 {
+					continue
+				}
+				ct := tc.Of(iff.Cond)
+				if ct.Op == "extract" && ct.Args[0].Op == "next" {
+					continue // range continuation
+				}
+				str := ct.Key()
+				if ct.Op == "bin" && len(ct.Args) == 2 {
+					str = norm(ct.Args[0]) + " " + ct.Sym + " " + norm(ct.Args[1])
+				}
+				out = append(out, fmt.Sprintf("%v:%s", side == 0, str))
+			}
+			sort.Strings(out)
+			return out
+		}
+		var tpSite, epSite ssa.Instruction
+		var tpFn, epFn *ssa.Function
+		for _, fn := range fns {
+			for _, b := range fn.Blocks {
+				for _, in := range b.Instrs {
+					if _, ok := in.(*ssa.MapUpdate); ok {
+						tpSite, tpFn = in, fn
+					}
+				}
+			}
+		}
+		for _, fn := range append([]*ssa.Function{ep}, ep.AnonFuncs...) {
+			for _, b := range fn.Blocks {
+				for _, in := range b.Instrs {
+					if call, ok := in.(*ssa.Call); ok {
+						if cal := call.Common().StaticCallee(); cal != nil && cal.Name() == "AddBinCounts" {
+							epSite, epFn = in, fn
+						}
+					}
+				}
+			}
+		}
 		var k2, v2 *Term
 		if s := set["SetKey"]; len(s) == 1 {
 			k2 = s[0].Args[1]
@@ -521,6 +576,12 @@ func c09Stores(c *Ctx, a *sketchAnchors) {
 		same := okT && okE && (src(key) == src(k2) || strings.HasPrefix(src(k2), "captured")) && (src(val) == src(v2) || strings.HasPrefix(src(v2), "captured"))
 		c.R.check(same, rule, x.name+"/ToProto-vs-EncodeProto", shortFn(ep), c.fpos(ep), "BinCounts[int32(index)] = count  ↔  AddBinCounts{SetKey(int32(index)); SetValue(count)} over the same iteration; no other field",
 			fmt.Sprintf("ToProto key=%v val=%v; EncodeProto key=%v val=%v setters=%v", key, val, k2, v2, keysOfT(set)))
+		if tpSite != nil && epSite != nil {
+			norm := func(t *Term) string { return src(t) }
+			g1, g2 := guardsOf(tpFn, tpSite, norm), guardsOf(epFn, epSite, norm)
+			c.R.check(strings.Join(g1, ";") == strings.Join(g2, ";"), rule, x.name+"/ToProto-vs-EncodeProto/same-entries", shortFn(ep), c.fpos(ep),
+				"an entry is exported under the same tests on both sides (every entry of the iteration, or the same selection)", fmt.Sprintf("ToProto under %v; EncodeProto under %v", g1, g2))
+		}
 		c.R.check(len(set) == 3, rule, x.name+"/EncodeProto/setters", shortFn(ep), c.fpos(ep), "only AddBinCounts/SetKey/SetValue are used", strings.Join(keysOfT(set), ","))
 		// iteration callbacks never stop
 		for _, fn := range append(append([]*ssa.Function{}, tp.AnonFuncs...), ep.AnonFuncs...) {
